@@ -24,7 +24,12 @@ def analyse(pid: str, root: str, tier: str = "quick"):
     mod = load_rules(pid)
     repo = Repo(root)
     ctx = Ctx(repo, pid, tier)
-    mod.run(ctx)
+    ctx.analysis_error = None
+    try:
+        mod.run(ctx)
+    except AnalysisError as ex:
+        # keep what was established so far: a refuted rule is reported even when a later rule lost its anchor
+        ctx.analysis_error = str(ex)
     floors = getattr(mod, "FLOORS", {})
     counts = {}
     for o in ctx.obligations:
@@ -71,6 +76,12 @@ def run_property(pid: str, tier: str) -> int:
         return 2
     apply_known(pid, obs)
     viol = [o for o in obs if o.verdict == VIOLATION]
+    if ctx.analysis_error and not viol:
+        print(f"ANALYSIS-ERROR property={pid} {ctx.analysis_error}")
+        write_evidence(pid, tier, level, ctx, obs, time.time() - t0, {"analysis_error": ctx.analysis_error}, floors, assumptions, explanation, status="analysis-error")
+        return 2
+    if ctx.analysis_error:
+        print(f"  note: part of the analysis was cut short after the violations below were established: {ctx.analysis_error}")
     if not viol and ctx.floor_failures:
         # a rule matched fewer instances than confirmed by hand and nothing was refuted: the analysis lost its anchors
         for f in ctx.floor_failures:
